@@ -624,6 +624,9 @@ DEFECTS = [
          w=("V", R(B("float"), ("minInclusive", "0")), ["NaN"]), ok=_inv, expected="invalid", scope=("float", "double", "duration") + DT8),
     dict(id="duration-compare-ignores-fraction", where="util/XMLDateTime.cpp compare(duration)/addDuration", what="duration comparison ignores fractional seconds (PT0.5S equals PT0.6S and P0D)",
          w=("C", B("duration"), ["PT0.5S", "PT0.6S"]), ok=lambda f: f[1] == "-1", expected="compare == -1", scope=("duration",)),
+    dict(id="negative-duration-compare-equal", where="util/XMLDateTime.cpp compare(duration) -> compareOrder -> normalize (UTC_NEG sign marker treated as a time zone)",
+         what="negative durations are 'normalised' like timezoned dates before the field comparison: -P1M compares EQUAL to -P30D (P1M vs P30D is indeterminate)",
+         w=("C", B("duration"), ["-P1M", "-P30D"]), ok=lambda f: f[1] != "0", expected="compare != 0", scope=None),
     dict(id="float-compared-in-double-precision", where="util/XMLFloat.cpp checkBoundary / XMLAbstractDoubleFloat::compareValues", what="xs:float values compared in double precision (0.1 != 0.100000001, "
          "16777216 != 16777217)", w=("C", B("float"), ["0.1", "0.100000001"]), ok=lambda f: f[1] == "0", expected="compare == 0", scope=("float",)),
     dict(id="hexbinary-compare-lexical", where="validators/datatype/HexBinaryDatatypeValidator (no compare override)", what="hexBinary compare is lexical (0a != 0A)",
@@ -645,6 +648,8 @@ DEFECTS = [
          w=("V", B("float"), [".01"]), ok=lambda f: f[2] == "1.0E-2", expected="canonical 1.0E-2", scope=None),
     dict(id="xsvalue-special-float-actual-normal", where="framework/psvi/XSValue.cpp getActValNumerics", what="XSValue::getActualValue(INF|-INF|NaN) reports DoubleFloatType_Normal with value 0",
          w=("V", B("double"), ["INF"]), ok=lambda f: f[5].startswith("g:1:"), expected="f_doubleEnum = DoubleFloatType_PosINF", scope=None),
+    dict(id="xsvalue-float-underflow-canonical-0", where="framework/psvi/XSValue.cpp getCanRepNumerics (XMLUni::fgPosZeroString)", what="XSValue canonical form of a float/double literal converted to zero "
+         "(underflow) is '0', which is not the canonical zero 0.0E0 (and canonicalises to it)", w=("V", B("double"), ["1E-400"]), ok=lambda f: f[4] == "0.0E0", expected="XSValue canonical 0.0E0", scope=None),
     dict(id="xsvalue-string-rejects-non-bmp", where="framework/psvi/XSValue.cpp validateStrings", what="XSValue::validate(dt_string|normalizedString|token) rejects characters outside the BMP (surrogates tested singly)",
          w=("V", B("string"), ["\U00010000"]), ok=lambda f: f[3] == "1", expected="XSValue::validate true", scope=None),
     dict(id="xsvalue-unsigned-rejects-minus-zero", where="framework/psvi/XSValue.cpp getActualNumericValue", what="XSValue rejects -0 for unsignedInt/Short/Byte (validators accept); no actual value for "
@@ -805,6 +810,8 @@ def explain(kind, f):
     # ---------------- predicate-only defects
     if kind.endswith(("-canon-form", "-canon-changes-value", "-canon-not-valid", "-canon-not-in-lexical-space", "-canon-not-idempotent")):
         c = f.get("observed") if kind.endswith("-canon-form") else f.get("canonical")
+        if kind == "xsvalue-canon-not-idempotent" and prim in ("float", "double") and c == "0" and f.get("again") == "0.0E0" and act("xsvalue-float-underflow-canonical-0"):
+            return ["xsvalue-float-underflow-canonical-0"]
         if prim == "dateTime" and lex and "T24:00:00" in lex and act("datetime-hour24-not-next-day") and not kind.endswith("idempotent") and c == _xerces_hour24_canon(lex):
             return ["datetime-hour24-not-next-day"]
         if prim in ("dateTime", "date") and isinstance(c, str) and c.startswith("0000-") and act("datetime-canonical-year-zero") and kind.endswith(("-canon-not-valid", "-canon-not-in-lexical-space")):
@@ -831,6 +838,8 @@ def explain(kind, f):
         return ["xsvalue-unsigned-rejects-minus-zero"]
     if kind in ("xsvalue-rejects-valid", "xsvalue-accepts-invalid") and prim == "NOTATION" and ":" in lex and act("xsvalue-notation-uri-local-form"):
         return ["xsvalue-notation-uri-local-form"]
+    if kind == "compare-unequal-values-equal" and prim == "duration" and f["a"].startswith("-") and f["b"].startswith("-") and f.get("expected") == IN and act("negative-duration-compare-equal"):
+        return ["negative-duration-compare-equal"]
     if kind == "compare-equal-values-differ" and prim == "hexBinary" and f["a"].lower() == f["b"].lower() and act("hexbinary-compare-lexical"):
         return ["hexbinary-compare-lexical"]
     if kind == "compare-equal-values-differ" and prim == "base64Binary" and f["a"].replace(" ", "") == f["b"].replace(" ", "") and act("base64binary-compare-lexical"):
@@ -1577,6 +1586,7 @@ def run_space(run, tier, out_path, env):
     ACTIVE = set()
     wit = run_witnesses(exe, env, workdir)
     ACTIVE = set(i for i, (passed, _, _) in wit.items() if not passed)
+    ACTIVE -= set(os.environ.get("C09_ASSUME_FIXED", "").split(","))     # development aid: show what a listed defect's predicate swallows
     if space == "witness":
         acc = Acc()
         for d in DEFECTS:
